@@ -1,0 +1,54 @@
+//go:build verif
+
+package kgo
+
+// Verification contracts (comments only), read by /verif/govc. Compiled only with -tags verif; no code.
+
+// ---- C19: codec choice and size-limited decoding (the sequential kernels; the codecs themselves are external) ----
+
+// The snappy block format (trusted library contracts for klauspost/compress/s2): a block announces its decoded
+// length in its header; DecodedLen reads it, and a successful Decode returns exactly that many bytes.
+//@ spec s2len(src []byte) int
+//@ extern func (s2) DecodedLen(src []byte) (n int, err error)
+//@   pure
+//@   ensures err == nil ==> (n >= 0 && n == s2len(src))
+//@ extern func (s2) Decode(dst []byte, src []byte) (out []byte, err error)
+//@   modifies elems(dst[:cap(dst)])
+//@   ensures err == nil ==> len(out) == old(s2len(src))
+//@   ensures sameorigin(out, dst) || fresh(out)
+
+// xerialDecode: for every byte string (of at least the 16 header bytes, which its caller checks): no panic - every
+// chunk size read from the wire is validated against the bytes that remain before it is used to slice - and the
+// output never grows beyond maxDecompressedSize: the cumulative claimed length is bounded before each chunk is
+// decoded.
+//@ func xerialDecode(dst []byte, src []byte) (out []byte, err error)
+//@   prop C19
+//@   nopanic
+//@   requires len(src) >= 16
+//@   assume maxDecompressedSize >= 0  // math.MaxInt32 unless a test lowers it; never negative
+//@   assume errMalformedXerial != nil && errDecompressedTooLarge != nil  // errors.New values, assigned once at package initialisation
+//@   ensures [never-more-than-the-maximum] err == nil ==> (len(out) >= old(len(dst)) && (int64(len(out)) <= maxDecompressedSize || len(out) == old(len(dst))))
+//@   ensures [error-returns-nothing] err != nil ==> out == nil
+//@   loop 0 invariant len(dst) >= old(len(dst)) && (int64(len(dst)) <= maxDecompressedSize || len(dst) == old(len(dst)))
+
+// Decompress: the xerial path is entered only with more than 16 bytes; a plain snappy block is decoded only after
+// its announced length was read without error and found within the limit; gzip and lz4 are read through a
+// LimitReader of maxDecompressedSize+1 bytes and an output longer than the limit is an error.
+//@ func (d *decompressor) Decompress(src []byte, codecType CompressionCodecType) (out []byte, err error)
+//@   prop C19
+//@   site call xerialDecode#0 assert [xerial-needs-its-header] len(arg1) > 16
+//@   site call Decode#0 assert [snappy-claim-checked-first] reached($DecodedLen0_0) && $DecodedLen0_1 == nil && int64($DecodedLen0_0) <= maxDecompressedSize
+//@   site call LimitReader#0 assert [gzip-read-is-limited] arg1 <= maxDecompressedSize + 1
+//@   site call LimitReader#1 assert [lz4-read-is-limited] arg1 <= maxDecompressedSize + 1
+//@   site call rfn#0 assert [gzip-over-limit-is-an-error] reached($Copy0_0) && $Copy0_1 == nil && $Copy0_0 <= maxDecompressedSize
+//@   site call rfn#1 assert [lz4-over-limit-is-an-error] reached($Copy1_0) && $Copy1_1 == nil && $Copy1_0 <= maxDecompressedSize
+
+// Compress: the codec used is the first configured option that is not zstd-while-zstd-is-disabled; so with
+// CompressDisableZstd among the flags the reported codec is never zstd, and it is always one of the configured
+// options (or none / the error marker).
+//@ func (c *compressor) Compress(dst *bytes.Buffer, src []byte, flags ...CompressFlag) (out []byte, codec CompressionCodecType)
+//@   prop C19
+//@   ensures [zstd-never-chosen-when-disabled] (exists k in 0..len(flags) :: old(flags[k]) == CompressDisableZstd) ==> codec != CodecZstd
+//@   ensures [a-configured-option] codec == -1 || codec == 0 || (exists k in 0..old(len(c.options)) :: old(c.options[k]) == codec)
+//@   loop 0 invariant disableZstd <==> (exists k in 0..rangeindex+1 :: flags[k] == CompressDisableZstd)
+//@   loop 1 invariant use == 0
